@@ -383,6 +383,36 @@ func c11CallerAbandons(kind string, m, extra int, how string, others int, probeD
 		fmt.Sprintf("others:%d", others), fmt.Sprintf("probe-deadline:%v", probeDl)}}
 }
 
+// the trailer of an abandoned stream is in the connection writer's hands while the transport Write is held up by
+// back-pressure; the caller cancels (or its deadline expires) and the reset reaches the server; then the back-pressure
+// ends. The connection's writer must survive: a probe is answered.
+func c11TrailerBlocked(kind string, how string, exchanged int, others int, probeDl bool) cwScenario {
+	pre, post, c := c11Others(others)
+	s := append([]Step{}, pre...)
+	open := Step{Op: "open", Kind: kind}
+	if how == "deadline" {
+		open.D = 3000
+	}
+	s = append(s, open, Step{Op: "c2s"}, Step{Op: "send", C: c, B: 10}, Step{Op: "c2s"}, hop(c, HOp{Op: "recv"}))
+	if kind != "CStream" {
+		for j := 0; j < exchanged; j++ {
+			s = append(s, hop(c, HOp{Op: "send", B: int64(20 + j)}), Step{Op: "s2c"}, Step{Op: "recv", C: c})
+		}
+	}
+	s = append(s, Step{Op: "sblock", B: 1}, hop(c, HOp{Op: "return", Code: 5 * (exchanged % 2), Msg: 7}))
+	if how == "deadline" {
+		s = append(s, Step{Op: "tick", D: 3000})
+	} else {
+		s = append(s, Step{Op: "cancel", C: c})
+	}
+	s = append(s, Step{Op: "c2s"}, Step{Op: "sblock", B: 0}, Step{Op: "drain"})
+	s = append(s, probeSteps(probeDl)...)
+	s = append(s, post...)
+	s = append(s, Step{Op: "recv", C: c})
+	return cwScenario{Mode: "e2e", Steps: s, Tags: []string{"c11", "abandon:caller", "kind:" + kind, "how:" + how, "fault:trailer-write-blocked",
+		fmt.Sprintf("exchanged:%d", exchanged), fmt.Sprintf("others:%d", others), fmt.Sprintf("probe-deadline:%v", probeDl)}}
+}
+
 // a peer that sends more than expected (client against a scripted peer)
 func c11OverSending(shape string, d int, probeDl bool) cwScenario {
 	var s []Step
@@ -532,6 +562,19 @@ func c11Scenarios(full bool) []cwScenario {
 			}
 		}
 	}
+	// the trailer taken by the server's writer, its transport Write held up, the caller cancels, the Write is released
+	for ki, kind := range []string{"Bidi", "SStream", "CStream"} {
+		for _, how := range []string{"cancel", "deadline"} {
+			for others := 0; others <= 2; others++ {
+				for ex := 0; ex < 2; ex++ {
+					if !full && (ki+others+ex)%2 == 1 {
+						continue
+					}
+					out = append(out, c11TrailerBlocked(kind, how, ex, others, (ki+others+ex)%4 == 0))
+				}
+			}
+		}
+	}
 	// ... and the variant in which that Write first blocks (back-pressure) and fails at its own 30 s deadline
 	for d := 0; d < 2*N; d++ {
 		out = append(out, c11OverSending("stream-unread-cancel-rstblocked", d, d%2 == 0))
@@ -598,7 +641,7 @@ func clientWord(w []int) (cwScenario, bool) {
 
 // server words: the real server against a scripted, protocol-conformant client; one stream (scripted call 0)
 // is opened, then every word over client envelopes {body, close, reset} and handler operations
-var serverLetters = []string{"cb", "cc", "cr", "hr", "hs", "hh", "h0", "he"}
+var serverLetters = []string{"cb", "cc", "cr", "hr", "hs", "hh", "h0", "he", "hx"}
 
 func serverWord(w []int, kind string) (cwScenario, bool) {
 	m := "/verif.Echo/" + kind
@@ -633,6 +676,12 @@ func serverWord(w []int, kind string) (cwScenario, bool) {
 				return cwScenario{}, false
 			}
 			s = append(s, hop(0, HOp{Op: "send", B: int64(20 + i)}))
+		case "hx":
+			// SendMsg of a message the codec rejects (Marshal fails, nothing is written); the handler goes on
+			if returned {
+				return cwScenario{}, false
+			}
+			s = append(s, hop(0, HOp{Op: "send", B: -1}))
 		case "hh":
 			if returned {
 				return cwScenario{}, false
